@@ -95,7 +95,7 @@ func H_C01_header() {
 	}
 	var opt *OPT
 	if withOpt {
-		opt = &OPT{Hdr: RR_Header{Name: ".", Rrtype: TypeOPT, Class: vU16("udp"), Ttl: vU32("optttl") & 0x00FFFFFF}}
+		opt = &OPT{Hdr: RR_Header{Name: ".", Rrtype: TypeOPT, Class: vU16("udp"), Ttl: vU32("optttl")}} // stale extended-rcode bits in the TTL must be overwritten from Rcode
 		m.Extra = []RR{opt}
 	}
 	vReach("msg-built")
